@@ -53,6 +53,27 @@ def load_variants(pid: str) -> List[Dict[str, Any]]:
     return out
 
 
+def benign_variants(pid: str, repo_root: str) -> List[Dict[str, Any]]:
+    """Behaviour-preserving refactors (selftest/benign/*.diff, written by independent agents against the
+    pinned tree and confirmed with the test suite) that touch a file this check consults: must stay silent."""
+    bdir = VERIF / "selftest" / "benign"
+    if not bdir.is_dir():
+        return []
+    from sa.check import analyse
+
+    try:
+        repo, _report = analyse(pid, repo_root, "quick")
+    except Exception:
+        return []
+    consulted = set(repo.consulted)
+    out: List[Dict[str, Any]] = []
+    for patch in sorted(bdir.glob("*.diff")):
+        touched = {ln[6:].strip() for ln in patch.read_text().splitlines() if ln.startswith("+++ b/")}
+        if touched & consulted:
+            out.append({"name": f"benign/{patch.stem}", "kind": "silent", "patch": str(patch)})
+    return out
+
+
 def _apply(variant: Dict[str, Any], tmp: Path) -> str:
     """Apply the variant; returns '' on success or a reason for skipping."""
     if "patch" in variant:
@@ -120,7 +141,7 @@ def _run_one(args) -> Dict[str, Any]:
 
 
 def run_selftest(pid: str, repo_root: str) -> Dict[str, Any]:
-    variants = load_variants(pid)
+    variants = load_variants(pid) + benign_variants(pid, repo_root)
     jobs = [(pid, repo_root, v) for v in variants]
     results: List[Dict[str, Any]] = []
     if jobs:
